@@ -106,7 +106,8 @@ def correspond(ctx, scale):
         for cos_p in (False, True):
             try:
                 H = len(pattern)
-                kw_p = dict(dim=2 * H, codebook_dim=2, heads=H, separate_codebook_per_head=True, codebook_size=5, decay=0.5, threshold_ema_dead_code=1, use_cosine_sim=cos_p)
+                thr_p = 2 if pi % 2 == 1 else 1
+                kw_p = dict(dim=2 * H, codebook_dim=2, heads=H, separate_codebook_per_head=True, codebook_size=5, decay=0.5, threshold_ema_dead_code=thr_p, use_cosine_sim=cos_p)
                 vq_p = VectorQuantize(**kw_p)
                 vqrec.set_codebook_grid(vq_p, rng)
                 with torch.no_grad():
@@ -117,16 +118,22 @@ def correspond(ctx, scale):
                             vq_p._codebook.cluster_size[h_, (h_ + pi + 2) % 5] = 0.5
                             # BOUNDARY usages (decay 0.5, threshold 1): 2 * (1 - 5e-7) decays to just BELOW the threshold (dead: strictly below is below),
                             # exactly 2 decays to exactly the threshold (live)
-                            vq_p._codebook.cluster_size[h_, (h_ + pi + 1) % 5] = 2.0 * (1.0 - 5e-7)
-                            vq_p._codebook.cluster_size[h_, (h_ + pi + 3) % 5] = 2.0
+                            vq_p._codebook.cluster_size[h_, (h_ + pi + 1) % 5] = 2.0 * thr_p * (1.0 - 5e-7)
+                            vq_p._codebook.cluster_size[h_, (h_ + pi + 3) % 5] = 2.0 * thr_p
                     vq_p._codebook.embed_avg.copy_(vq_p._codebook.embed * vq_p._codebook.cluster_size[..., None])
                 vq_p.train()
-                ret, recs = vqrec.record_call(vq_p, vqrec.grid(rng, (1, 2, 2 * H)))
+                x_p = vqrec.grid(rng, (1, 2, 2 * H))
+                if not cos_p and pi % 2 == 1:
+                    # pixel-like integer / half inputs (twice a value no longer fits int8 / uint8): the revived code and its running sum are float32 numbers
+                    dt_p = [torch.int8, torch.uint8, torch.float16][pi % 3]
+                    x_p = ((x_p * 40).round().clamp(-120, 120) if dt_p == torch.int8 else (x_p * 80).abs().round().clamp(0, 255) if dt_p == torch.uint8 else x_p * 1.1).to(dt_p)
+                    dist['prescribed_patterns_with_' + str(dt_p).split('.')[-1]] = dist.get('prescribed_patterns_with_' + str(dt_p).split('.')[-1], 0) + 1
+                ret, recs = vqrec.record_call(vq_p, x_p)
                 evaluations += 1
                 dist['prescribed_dead_head_patterns'] = dist.get('prescribed_dead_head_patterns', 0) + 1
                 for h_ in range(recs[0].H):
                     cases.append(c03.update_term(recs[0], h_, vq_p._codebook, cos_p, TOL_E, TOL_S))
-                    meta.append(dict(kind='vq-dead-head-pattern', kw=kw_p, step=0, head=h_, mode='train', reset=1.0, pattern=pattern))
+                    meta.append(dict(kind='vq-dead-head-pattern', kw=kw_p, step=0, head=h_, mode='train', reset=float(thr_p), pattern=pattern))
             except Exception as ex:
                 failures.append({'key': f'vq-dead-head-pattern:exception:{type(ex).__name__}', 'what': repr(ex), 'case': dict(pattern=pattern)})
     # hyper-parameters are constructor arguments, not state (c03.cross_config_cases): a module that LOADS the state of a differently configured one
